@@ -257,7 +257,6 @@ func (k *kase) mustRegister(when string, a *actor, s *spec, vioKey string) bool 
 	}
 	if s.real != 0 {
 		k.sc.ports[s.real] = true
-		k.sc.proto[s.real] = baseKind(s.Kind)
 	}
 	return true
 }
@@ -305,7 +304,7 @@ func (k *kase) withSib(lv []live) []live {
 // runCase executes one scenario.
 func runCase(c *h.Case, e *env, kind, path string) {
 	k := &kase{c: c, e: e, kind: kind, path: path, rng: c.Rng, pfx: fmt.Sprintf("c%d.", c.Idx), tag: fmt.Sprintf("k%dk", c.Idx)}
-	k.sc = &scope{e: e, pfx: k.pfx, tag: k.tag, ports: map[int]bool{}, proto: map[int]string{}, rids: map[string]string{}}
+	k.sc = &scope{e: e, pfx: k.pfx, tag: k.tag, ports: map[int]bool{}, rids: map[string]string{}}
 	c.Data["env"], c.Data["kind"], c.Data["path"] = e.name, kind, path
 	defer func() {
 		for _, a := range k.actors {
